@@ -60,6 +60,8 @@ def parseCallOpt (ts : List String) : Opt :=
   match ts with
   | "conv" :: fs => .convFunc (fs.map (fun f => some (natOf f)))
   | "convfunc" :: fs => .convFunc (fs.map (fun f => some (natOf f)))
+  | ["gen", "fail"] => .gen 1
+  | ["gen", "nil"] => .gen 0
   | ["convnil"] => .conv [none]
   | ["convbad"] => .conv [none]
   | _ => parseOpt ts
@@ -492,6 +494,18 @@ def runCall (fl : Flags) (b : Block) (conv : Bool := false) : Res :=
       props := [("C06", if runs.any (fun r => isPanicRes (resOf r)) then "FAIL:panic_on_malformed_option" else "ok")],
       stats := ["outcome=builderr"] }
   | .ok bld =>
+  -- a converter generator that reports an error: it is invoked for every value / typed-output vertex
+  -- present once inputs and converters are in the graph, and its error must come back as an error
+  let genFails := bld.gens.contains 1 ∧
+    (target.input.labels.any (fun l => l.name != "") || !(suppliedOf bld).isEmpty ||
+     (bld.convs.filterMap sc.fn).any (fun f => !f.output.labels.isEmpty || f.input.labels.any (fun l => l.name != "")))
+  if genFails then
+    let ok := runs.all (fun r => resOf r = ["err", "generr"])
+    { conform := if ok then none else some s!"failing_generator_expected_error_got_{noSpace (" ".intercalate (resOf (runs.headD [])))}",
+      propNA := true,
+      props := [("C06", if runs.any (fun r => isPanicRes (resOf r)) then "FAIL:panic_when_a_converter_generator_reports_an_error" else "ok")],
+      stats := ["outcome=generr", "execs=0", s!"convs={bld.convs.length}"] }
+  else
   let cgr := callGraph fl.var sc.env bld sc.fn target false none
   -- graph dump
   let dl := (field b "dump").getD []
